@@ -364,7 +364,7 @@ var long = ev.NewCheck("C08", "strings-4-64",
 		return Case{b}
 	}, run)
 
-func TestPropLongStrings(t *testing.T) { long.Rapid(t, 6000, 300000) }
+func TestPropLongStrings(t *testing.T) { long.Rapid(t, 6000, 60000) }
 
 // messages the reader produces on generated files
 type FileCase struct{ File smfref.File }
